@@ -742,7 +742,7 @@ pub fn generate(seed: u64, tier: Tier, p: &Profile) -> Scenario {
         let coin = if min_coin { 0 } else { g.min_ada(extra) + if g.r.chance(1, 2) { g.amount() % 100_000_000 } else { 0 } };
         let addr = if g.r.chance(1, 8) { AddrSpec::Ent(Cred::Script(*g.r.pick(&g.plutus_ids.clone()))) } else { g.key_addr() };
         plan.need += if min_coin { g.min_ada(extra) as u128 } else { coin as u128 };
-        let form = if pm(&mut g.r, p.decoded_outputs) { 1 + g.r.below(2) as u8 } else { 0 };
+        let form = if pm(&mut g.r, p.decoded_outputs) { 1 + g.r.below(3) as u8 } else { 0 };
         // an output with an inline datum at exactly its minimum ADA, and then "the same" output whose datum arrives in
         // another producer's longer encoding (equal as a value, not in size): the second one has to be measured on its own
         if let Some(DatumAt::Inline(d)) = &datum {
